@@ -35,6 +35,10 @@ EVENTS = [(), (2,), (2, 3)]
 CONDS = [None, (), (3,), (2, 2)]
 BATCHES = [(), (1,), (4,), (5, 1), (1, 4), (5, 4), (4, 4), (2, 5, 4)]
 SAMPLE_SHAPES = [(), (1,), (3,), (2, 3)]
+# zero-length batch axes are batch dimensions like any other ("arbitrary leading batch dimensions", NumPy semantics: the result is empty)
+EMPTY_X = [(0,), (0, 1), (2, 0), (0, 4)]
+EMPTY_C = [(), (1,), (4,), (5, 1), (0,), (3, 1, 1)]
+EMPTY_SAMPLING = [((0,), ()), ((2, 0), ()), ((0,), (4,)), ((3,), (0,)), ((3,), (2, 0)), ((0,), (0,))]
 
 
 def plan(tier, seed):
@@ -94,7 +98,8 @@ def run_shard(shard):
         kind = f"Tag(event={event},cond={cshape})"
         cbatches = BATCHES if cshape is not None else [()]
         # ------------------------------------------------------------ log_prob ------------
-        for xb, cb in itertools.product(BATCHES, cbatches):
+        empties = list(itertools.product(EMPTY_X, EMPTY_C if cshape is not None else [()]))
+        for xb, cb in list(itertools.product(BATCHES, cbatches)) + empties:
             case = {"dist": kind, "method": "log_prob", "x_batch": xb, "cond_batch": cb}
             nx = int(np.prod(xb, dtype=int))
             xid = (1 + np.arange(nx, dtype=float)).reshape(xb)
@@ -122,6 +127,8 @@ def run_shard(shard):
                 v("logprob.no_raise", f"{kind}.log_prob returned shape {lp.shape} for non-broadcastable batch shapes x{xb} cond{cb}", case)
                 continue
             rec.count("batched_logprob_calls")
+            if 0 in xb or 0 in cb:
+                rec.count("empty_batch_logprob_calls")
             if lp.shape != bshape:
                 v("logprob.shape", f"{kind}.log_prob shape {lp.shape}, NumPy broadcasting gives {bshape} (x{xb} cond{cb})", case)
                 continue
@@ -134,7 +141,7 @@ def run_shard(shard):
             if lp.size >= 2:
                 rec.nontrivial.add(("lp", event, cshape, xb, cb))
         # ------------------------------------------------------------ sampling ------------
-        for ss, cb in itertools.product(SAMPLE_SHAPES, cbatches):
+        for ss, cb in list(itertools.product(SAMPLE_SHAPES, cbatches)) + [(a, b_) for a, b_ in EMPTY_SAMPLING if cshape is not None or b_ == ()]:
             for method in ("sample", "sample_and_log_prob"):
                 case = {"dist": kind, "method": method, "sample_shape": ss, "cond_batch": cb}
                 c, cid = None, None
@@ -149,7 +156,8 @@ def run_shard(shard):
                     out = getattr(d, method)(key, ss, None if c is None else jnp.asarray(c))
                     out2 = getattr(d, method)(key, ss, None if c is None else jnp.asarray(c))
                 except Exception as e:  # noqa: BLE001
-                    v("sample.raise", f"{kind}.{method} raised {type(e).__name__}: {str(e)[:150]} (sample_shape {ss} cond{cb})", case)
+                    v("sample.raise.empty_batch" if (0 in ss or 0 in cb) else "sample.raise",
+                      f"{kind}.{method} raised {type(e).__name__}: {str(e)[:150]} (sample_shape {ss} cond{cb})", case)
                     continue
                 s = np.asarray(out[0] if method == "sample_and_log_prob" else out, dtype=np.float64)
                 s2 = np.asarray(out2[0] if method == "sample_and_log_prob" else out2, dtype=np.float64)
@@ -160,6 +168,12 @@ def run_shard(shard):
                     continue
                 if not np.array_equal(s, s2):
                     v("sample.nondeterministic", f"{kind}.{method}: the same key gave different results", case)
+                if s.size == 0:  # empty batch: only the shapes can be judged
+                    rec.count("empty_batch_sample_calls")
+                    if method == "sample_and_log_prob" and np.asarray(out[1]).shape != ss + (cb if cshape is not None else ()):
+                        v("sample_and_log_prob.shape", f"{kind}: log-prob shape {np.asarray(out[1]).shape}, expected {ss + cb}", case)
+                    rec.nontrivial.add((method, event, cshape, ss, cb))
+                    continue
                 bs = ss + (cb if cshape is not None else ())
                 flat = s.reshape(bs + (-1,)) if event else s.reshape(bs + (1,))
                 if not np.all(flat == flat[..., :1]):
@@ -247,7 +261,7 @@ def run_shard(shard):
         event, cshape = d.shape, d.cond_shape
         batches = BATCHES if full else [(), (4,), (5, 1), (1, 4), (2, 5, 4)]
         cbatches_ = batches if cshape is not None else [()]
-        for xb, cb in itertools.product(batches, cbatches_):
+        for xb, cb in list(itertools.product(batches, cbatches_)) + list(itertools.product([(0,), (2, 0)], cbatches_)):
             try:
                 bshape = np.broadcast_shapes(xb, cb)
             except ValueError:
